@@ -10,6 +10,7 @@ exit decision, `list` goes to stdout; nothing is printed for an empty result; no
 order of the steps in main.
 Not decided: the JSON shape produced by serde derives.
 """
+import os
 import re
 
 from engine.cfg import cfg_of
@@ -35,7 +36,7 @@ def check_exit(ctx, out):
         out.inst("C11.exit", 0, 6)
         return
     b, bi, t = sites[0]
-    if b.id == "bwbin::main":
+    if b.id.startswith("bwbin::") and b.kind == "Fn":
         # the exit decision sits in main itself (the report is built and written by helpers): read main
         # with those helpers looked through
         bv0 = ctx.inl(b, skip=lambda cb: not cb.id.startswith("bwbin::"), tag="bin-only", sugar=True)
@@ -67,7 +68,9 @@ def check_exit(ctx, out):
     if flag is None:
         # no flag variable: the exit may be decided directly by a scan of the diagnostics
         # (`if violations.values().flatten().any(is_error) { exit(1) }`), read in the normalised view
-        bv = ctx.inl(b, skip=ctx.domain_api, tag="domain", sugar=True)
+        # (a view of a binary-crate function with only the binary's own helpers looked through already is the
+        # right reading: the library's `validators::run` stays a call there, which names what is scanned)
+        bv = b if getattr(b, "is_inlined", False) else ctx.inl(b, skip=ctx.domain_api, tag="domain", sugar=True)
         xs = [(bj, tj) for bj, tj in bv.calls() if callee_matches(tj, r"^std::process::(exit|abort)$")]
         direct = False
         if len(xs) == 1:
@@ -83,9 +86,13 @@ def check_exit(ctx, out):
                     from rules.shared import TRUNCATING
                     trunc = [c[1].split("::")[-1] for c in walk(ctx.expr(bv).operand(its[0][1]["args"][0])) if c[0] == "call" and (TRUNCATING.search(c[1]) or re.search(r"Iterator>?::(filter|filter_map)$", c[1]))] if its else ["?"]
                     srcx = list(walk(ctx.expr(bv).operand(its[0][1]["args"][0]))) if its else []
-                    if its and not trunc and (any(x[0] == "param" for x in srcx) or any(x[0] == "call" and re.search(r"validators::run$", x[1]) for x in srcx)):
+                    src_labs = ctx.prov.read_operand(bv, its[0][1]["args"][0]) if its else set()
+                    if its and not trunc and (any(x[0] == "param" for x in srcx) or any(x[0] == "call" and re.search(r"validators::run$", x[1]) for x in srcx)
+                                              or P.has_call(src_labs, r"validators::run$")):
                         direct = True
                     else:
+                        if os.environ.get("BW_DEBUG_MODEL"):
+                            print("C11.exit scan: trunc", trunc, "calls", sorted({x[1] for x in srcx if x[0] == "call"}), "kinds", sorted({x[0] for x in srcx}))
                         out.viol("C11.exit", "C11.exit|scan", ctx.where(b, t["span"]), "the scan that decides the exit status does not run over every diagnostic of the reported map (%s)" % (trunc or src[:80]))
                         direct = None
         if direct:
@@ -163,11 +170,36 @@ def _check_exit_flag(ctx, out, b, bi, t, cfg, flag, n):
     out.inst("C11.exit", n, 5, ["%s: exit(1) iff has_error; has_error := false; has_error := true iff severity()==Error (sticky)" % b.id])
 
 
+def _always_before(ctx, b, first, then):
+    """Every *feasible* path from the entry of `b` to block `then` passes block `first` (path-sensitive constant
+    propagation: an early `return Ok(false)` of an inlined helper cannot take the `true` arm of the test that
+    follows the call, although it joins the same control flow)."""
+    from engine import casewalk as CW
+    std = CW.std_hooks()
+    w = CW.Walk(ctx, b, [std], max_states=30000)
+    bad = []
+
+    def on_visit(bb, env):
+        if bb == first:
+            env[-2] = CW.const(1)
+        if bb == then and env.get(-2) is None:
+            bad.append(bb)
+    w.on_visit = on_visit
+    try:
+        w.explore(0, {})
+    except CW.Limit:
+        return False
+    return not bad
+
+
 def _check_out(ctx, out, b, bi, cfg):
     # ---------------------------------------------------------------- C11.out
     m = 0
-    in_main = b.id == "bwbin::main"
-    main = b if in_main else ctx.main_view()
+    # "in main": the body at hand is the one that runs the validators and reports (main itself, or a function of
+    # the binary that main hands the work to, read with the binary's helpers looked through)
+    in_main = b.id == "bwbin::main" or (b.id.startswith("bwbin::") and any(callee_matches(tt, r"validators::run$") for _, tt in b.calls()))
+    main = b if b.id == "bwbin::main" else ctx.main_view()
+    site_body = b if in_main else main
 
     def stream_of(body, wt):
         labs = ctx.prov.read_operand(body, wt["args"][0])
@@ -185,7 +217,7 @@ def _check_out(ctx, out, b, bi, cfg):
             m += 1
         else:
             out.viol("C11.out", "C11.out|stream", ctx.where(b, wt["span"]), "the diagnostics are not written to stderr")
-        if bcfg.dominates(wb, bi):
+        if bcfg.dominates(wb, bi) or _always_before(ctx, b, wb, bi):
             m += 1
         else:
             out.viol("C11.out", "C11.out|report-before-exit", ctx.where(b, wt["span"]), "the report does not precede the exit on every path")
@@ -201,7 +233,7 @@ def _check_out(ctx, out, b, bi, cfg):
         report_sites = [(bb, tt) for bb, tt in main.calls() if (tt.get("res") or "") == b.id] if not in_main else ([writers[0]] if len(writers) == 1 else [])
         for bb, tt in report_sites:
             ok = False
-            for br, vals2, e in util.guards(ctx, main, bb):
+            for br, vals2, e in util.guards(ctx, site_body, bb):
                 txt = render(e, 400)
                 if re.search(r"HashMap::is_empty\(", txt) and vals2 == {0}:
                     ok = True
@@ -213,13 +245,13 @@ def _check_out(ctx, out, b, bi, cfg):
             if ok:
                 m += 1
             else:
-                out.viol("C11.out", "C11.out|empty-guard", ctx.where(main, tt["span"]), "the report is not guarded by `!violations.is_empty()`: an empty `{}` would be printed for a clean run")
+                out.viol("C11.out", "C11.out|empty-guard", ctx.where(site_body, tt["span"]), "the report is not guarded by `!violations.is_empty()`: an empty `{}` would be printed for a clean run")
             src_op = tt["args"][0] if not in_main else tt["args"][1]
-            labs = ctx.prov.read_operand(main, src_op)
+            labs = ctx.prov.read_operand(site_body, src_op)
             if P.has_call(labs, r"validators::run$"):
                 m += 1
             else:
-                out.viol("C11.out", "C11.out|report-input", ctx.where(main, tt["span"]), "the reported map is not the result of running the validators")
+                out.viol("C11.out", "C11.out|report-input", ctx.where(site_body, tt["span"]), "the reported map is not the result of running the validators")
         # list goes to stdout and returns
         lw = [(bb, tt) for bb, tt in main.calls() if callee_matches(tt, r"serde_json::to_writer_pretty$|serde_json::to_writer$") and bb in mcfg.reachable
               and (not in_main or stream_of(main, tt) == "stdout")]
